@@ -62,6 +62,16 @@ pub fn run(toks: &[&str]) -> String {
                 return format!("ERR array-form {} closure-form {}", by_array, by_closure);
             }
             let all = v[..];
+            // a predicate that itself looks into the view (or into a clone of it) while the selection is being built
+            let nested = { let idx = idx.clone(); let vr = &v; v[move |i| idx.contains(&i) && (vr[[i]] | 1) != 0] };
+            if nested != by_closure {
+                return format!("ERR nested-predicate-form {} closure-form {}", nested, by_closure);
+            }
+            let w = v.clone();
+            let cloned = { let idx = idx.clone(); v[move |i| idx.contains(&i) && w[..] == all] };
+            if cloned != by_closure {
+                return format!("ERR predicate-over-clone-form {} closure-form {}", cloned, by_closure);
+            }
             format!("OK {} {} {}", by_closure, all, entries(&v).len())
         }
         "getvregby" => {
